@@ -163,6 +163,19 @@ StartsWithDate == {W("additional", <<>>, <<DSingle(B0(Ea(-1)))>>, <<>>, <<>>, T1
                    W("additional", <<>>, <<>>, <<Wk(20, 20, 1)>>, <<>>, <<>>, "", "")}
 AfterDates == {<<a, b>> : a \in DatesOnly, b \in StartsWithDate}
 
+\* written day and denoted day differ: a day-number end bound wrapping past the last supported year ends with that year
+Special ==
+  {[text |-> "9999 Dec 22-21 10:00-12:00",
+    ast |-> DenExpr(<<W("normal", <<>>, <<DRange(B0(Dt(9999, 12, 22)), B0(Dt(9999, 12, 31)))>>, <<>>, <<>>, T1, "", "")>>),
+    expect |-> "accept", family |-> "edge",
+    display |-> DisplayExpr(DenExpr(<<W("normal", <<>>, <<DRange(B0(Dt(9999, 12, 22)), B0(Dt(9999, 12, 31)))>>, <<>>, <<>>, T1, "", "")>>)),
+    comment_only |-> <<FALSE>>],
+   [text |-> "9998 Dec 22-21 10:00-12:00",
+    ast |-> DenExpr(<<W("normal", <<>>, <<DRange(B0(Dt(9998, 12, 22)), B0(Dt(9999, 1, 21)))>>, <<>>, <<>>, T1, "", "")>>),
+    expect |-> "accept", family |-> "edge",
+    display |-> DisplayExpr(DenExpr(<<W("normal", <<>>, <<DRange(B0(Dt(9998, 12, 22)), B0(Dt(9999, 1, 21)))>>, <<>>, <<>>, T1, "", "")>>)),
+    comment_only |-> <<FALSE>>]}
+
 \* the kind of a rule made of a comment only is left open (OSM: unknown; the repository pins open)
 CommentOnly(w) == ~w.always /\ w.year = <<>> /\ w.monthday = <<>> /\ w.week = <<>> /\ w.weekday = <<>> /\ ~w.written_time
                   /\ w.kindword = "" /\ w.comment # ""
@@ -176,6 +189,7 @@ Accepted == {Case(<<w>>, v) : w \in SingleRules, v \in Variants}
        \cup {Case(ws, v) : ws \in Seqs2, v \in SmallVariants}
        \cup {Case(ws, Canonical) : ws \in Seqs3}
        \cup {Case(ws, v) : ws \in AfterDates, v \in SmallVariants}
+       \cup Special
 
 \* --- single-field corruptions and unsupported constructs -----------------------------
 Rejected == {"", " ", "25:00-26:00", "24:01-25:00", "10:60-12:00", "10:00-12:60", "10:00-49:00", "10:00-48:01", "Jan 0", "Jan 00",
